@@ -293,6 +293,19 @@ class VFS:
         return m
 
 
+class _BufView:
+    """stands for memoryview(buffer) of a BytesIO with symbolic content: only its size is available"""
+
+    def __init__(self, n):
+        self.nbytes = n
+
+    def __len__(self):
+        return self.nbytes
+
+    def release(self):
+        pass
+
+
 class SymBytesIO(io.BytesIO):
     """A genuine BytesIO subclass whose content may hold symbolic bytes (isinstance / fileno behave as CPython's)."""
 
@@ -336,7 +349,7 @@ class SymBytesIO(io.BytesIO):
 
     def getbuffer(self):
         if self._content.ov:
-            raise core.Unsupported('getbuffer of symbolic BytesIO')
+            return _BufView(len(self._content))
         return memoryview(bytes(self._content.base))
 
     def __len__(self):
